@@ -7,7 +7,7 @@ PROPS = ["C12"]
 GEN_GROUPS = ["Api"]
 
 VERBS = {"GetMapping": "GET", "PostMapping": "POST", "PutMapping": "PUT", "DeleteMapping": "DELETE"}
-PATHS = ["/users", "/{id}", "/a/b", "", "/x-y_z"]
+PATHS = ["/users", "/{id}", "/a/b", "", "/x-y_z", "/bücher/{größe}", "/" + "segment/" * 12 + "end"]
 
 
 def q(s):
